@@ -15,7 +15,7 @@ import (
 func init() {
 	register(&Property{
 		ID:          "C08",
-		Explanation: "R1 (path fidelity): in the forwarder's request modifier URL.Path, URL.RawPath and URL.RawQuery of the outgoing request are all assigned from the SAME *url.URL value, which is the result of net/url.ParseRequestURI(req.RequestURI) on its success edge when RequestURI is non-empty and req.URL otherwise; RequestURI is cleared. R2: Proto/ProtoMajor/ProtoMinor are the constants HTTP/1.1, 1, 1. R3: Host := URL.Host is stored exactly on the pass-through-flag == false edge. R4 (set-if-absent): every Header.Set(K, ...) for K in {X-Forwarded-Proto, -Host, -Port, X-Real-Ip} lies on the Get(K) == \"\" edge for the same constant K; X-Forwarded-Server is set from the hostname; the proto value is https exactly on the TLS != nil edge; X-Real-Ip's value is the host result of net.SplitHostPort applied to req.RemoteAddr itself (zone stripped afterwards); the port is SplitHostPort(req.Host)'s port, else 443/80. R5 (registry): XHeaders contains every X-* constant of the header block and is removed, when forward headers are not trusted, before anything is set. R6 (delegation and ordering): forward.New returns an httputil.ReverseProxy literal (hop-by-hop removal in both directions and X-Forwarded-For are the stdlib's); the module's hook must not itself delete the Connection header or the hop-by-hop list (that would hide client-named hop-by-hop headers from the stdlib); and the hook that sets the forwarding headers must be one that the installed net/http/httputil runs AFTER its hop-by-hop removal — derived from the stdlib's own SSA (which of Director / Rewrite can reach the first removeHopByHopHeaders call). R4 also: the store request.Host := URL.Host does not reach the header rewriter (X-Forwarded-Host/-Port are derived from the incoming Host); in the port routine a default ('443'/'80') is returned only on edges where SplitHostPort(req.Host) failed or gave an empty port. R4 also: the default port 80 is returned only on the req.TLS == nil edge.",
+		Explanation: "R1 (path fidelity): in the forwarder's request modifier URL.Path, URL.RawPath and URL.RawQuery of the outgoing request are all assigned from the SAME *url.URL value, which is the result of net/url.ParseRequestURI(req.RequestURI) on its success edge when RequestURI is non-empty and req.URL otherwise; RequestURI is cleared. R2: Proto/ProtoMajor/ProtoMinor are the constants HTTP/1.1, 1, 1. R3: Host := URL.Host is stored exactly on the pass-through-flag == false edge. R4 (set-if-absent): every Header.Set(K, ...) for K in {X-Forwarded-Proto, -Host, -Port, X-Real-Ip} lies on the Get(K) == \"\" edge for the same constant K; X-Forwarded-Server is set from the hostname; the proto value is https exactly on the TLS != nil edge; X-Real-Ip's value is the host result of net.SplitHostPort applied to req.RemoteAddr itself (zone stripped afterwards); the port is SplitHostPort(req.Host)'s port, else 443/80. R5 (registry): XHeaders contains every X-* constant of the header block and is removed, when forward headers are not trusted, before anything is set. R6 (delegation and ordering): forward.New returns an httputil.ReverseProxy literal (hop-by-hop removal in both directions and X-Forwarded-For are the stdlib's); the module's hook must not itself delete the Connection header or the hop-by-hop list (that would hide client-named hop-by-hop headers from the stdlib); and the hook that sets the forwarding headers must be one that the installed net/http/httputil runs AFTER its hop-by-hop removal — derived from the stdlib's own SSA (which of Director / Rewrite can reach the first removeHopByHopHeaders call). R4 also: the store request.Host := URL.Host does not reach the header rewriter (X-Forwarded-Host/-Port are derived from the incoming Host); in the port routine a default ('443'/'80') is returned only on edges where SplitHostPort(req.Host) failed or gave an empty port. R4 also: the default port 80 is returned only on the req.TLS == nil edge. R6 also: the hook does not rewrite the Connection header. R7 (= C06.R6): the request dump does not fill req.Form (which would make the stdlib proxy re-encode the query).",
 		NotDecided: []string{
 			"the stdlib's own escaping and hop-by-hop behaviour (trusted); peer-address forms beyond what net.SplitHostPort accepts",
 		},
@@ -800,5 +800,7 @@ func mutantsC08() []Mutant {
 		{Name: "host-override-before-rewrite", File: "forward/fwd.go", Old: "\t\t\th.Rewrite(request)\n\n\t\t\tif !passHostHeader {\n\t\t\t\trequest.Host = request.URL.Host\n\t\t\t}\n", New: "\t\t\tif !passHostHeader {\n\t\t\t\trequest.Host = request.URL.Host\n\t\t\t}\n\n\t\t\th.Rewrite(request)\n", Expect: "C08.R4"},
 		{Name: "tls-beats-explicit-port", File: "forward/rewrite.go", Old: "\tif _, port, err := net.SplitHostPort(req.Host); err == nil && port != \"\" {\n\t\treturn port\n\t}\n\n\tif req.Header.Get(XForwardedProto) == \"https\" || req.Header.Get(XForwardedProto) == \"wss\" {\n\t\treturn \"443\"\n\t}\n", New: "\tif req.Header.Get(XForwardedProto) == \"https\" || req.Header.Get(XForwardedProto) == \"wss\" {\n\t\treturn \"443\"\n\t}\n\n\tif _, port, err := net.SplitHostPort(req.Host); err == nil && port != \"\" {\n\t\treturn port\n\t}\n", Expect: "C08.R4"},
 		{Name: "port-ignores-tls", File: "forward/rewrite.go", Old: "\tif req.TLS != nil {\n\t\treturn \"443\"\n\t}\n\n\treturn \"80\"\n", New: "\treturn \"80\"\n", Expect: "C08.R4"},
+		{Name: "dump-parses-form", File: "utils/dumpreq.go", Old: "\trc.Header = r.Header\n", New: "\trc.Header = r.Header\n\t_ = r.ParseForm()\n", Expect: "C08.R7"},
+		{Name: "connection-rewritten-in-hook", File: "forward/fwd.go", Old: "\t\t\tmodifyRequest(request)\n", New: "\t\t\tmodifyRequest(request)\n\t\t\tif request.Header.Get(\"Upgrade\") != \"\" {\n\t\t\t\trequest.Header.Set(\"Connection\", \"Upgrade\")\n\t\t\t}\n", Expect: "C08.R6"},
 	}
 }
